@@ -237,6 +237,46 @@ mk2!(Zed, "kk", "ll", 7, true, true);
 '''
     mods.append(Module(f'm{n:04d}', 'names / ranks / booleans forwarded through macro_rules fragments ($n:ident, $s:expr, $l:literal), both spellings', body, [h], sample=dict(spelling='p(v) and p = v'), functions=FUNCTIONS))
     n += 1
+    # the same values in the `p = v` spelling *followed by another parameter*: the value is then no longer the last thing in the list,
+    # syn does not unwrap the invisible group for it, and the helpers of educe have to (rank, ignore, name, named_field, new)
+    decl = '''use crate::support::dbg::*;
+macro_rules! mk3 {
+    ($r:expr, $b:expr, $s:expr, $l:literal, $t:expr) => {
+        #[derive(Educe)]
+        #[educe(PartialOrd, Ord)]
+        #[derive(PartialEq, Eq)]
+        pub struct O3 { #[educe(Ord(rank = $r, method = rev_cmp))] pub a: u8, pub b: u8 }
+        #[derive(Educe)]
+        #[educe(PartialEq)]
+        pub struct P3 { #[educe(PartialEq(ignore = $b, method = eq_le))] pub a: u8, pub b: u8 }
+        #[derive(Educe)]
+        #[educe(Debug(name = $l, named_field = $t))]
+        pub struct D3(#[educe(Debug(name = $s, method = fmt_any))] pub u8, pub Val<2>);
+        #[derive(Educe)]
+        #[educe(Default(new = $t, expression = N3 { a: 3 }))]
+        pub struct N3 { pub a: u8 }
+    };
+}
+mk3!(7, false, "kk", "Zed", true);
+'''
+    h = Harness('h_forwarded3', unwind=60, covers=['reached'])
+    body = decl + h.attrs() + '''pub fn h_forwarded3() {
+    let (p, q, r, s): (u8, u8, u8, u8) = (kani::any(), kani::any(), kani::any(), kani::any());
+    kani::cover!(true, "reached");
+    assert!(Ord::cmp(&O3 { a: p, b: q }, &O3 { a: r, b: s }) == q.cmp(&s).then(rev_cmp(&p, &r)), "rank = v, .. forwarded by a macro");
+    assert!((P3 { a: p, b: q } == P3 { a: r, b: s }) == (eq_le(&p, &r) && q == s), "ignore = v, .. forwarded by a macro");
+    assert!(N3::new().a == 3 && <N3 as Default>::default().a == 3, "new = v, .. forwarded by a macro");
+    log_reset();
+    let (b1, r1) = render(&D3(1, Val(2)), false);
+    let wantb = b"Zed { kk: ?, _1: v2 }";
+    assert!(r1.is_ok() && !b1.overflow && b1.n == wantb.len(), "Debug name = v, .. forwarded by a macro (length)");
+    let mut i = 0;
+    while i < wantb.len() { assert!(b1.b[i] == wantb[i], "Debug name = v, .. forwarded by a macro"); i += 1; }
+}
+'''
+    mods.append(Module(f'm{n:04d}', 'forwarded values in the `p = v` spelling followed by another parameter (rank, ignore, name, named_field, new)', body, [h], sample=dict(spelling='p = v, q = w'), functions=FUNCTIONS,
+                       classes=['c14:forwarded-value-followed-by-parameter']))
+    n += 1
     return mods
 
 
